@@ -28,7 +28,8 @@ LEVEL_NOTE = ('gfortran -O0 -fcheck=all is the reference semantics. Kernels are 
 RULE = ('vlib/arrgen.py: kernel with 4-8 statements drawn from section assignments (rank 1-3, strides incl. negative, '
         'lower bounds != 1, ":"/bare forms, scalar and element broadcast, safe overlaps in both directions), WHERE '
         'with a matching loop, element loop nests, sections inside loops, sections as call arguments, reductions, '
-        'ks:ke sections, derived-type shaped locals; profile fortran (3-4 of 8 transformation variants per case), c '
+        'ks:ke sections (horizontal dimension first, or second behind a range that stays: arrays laid out (m, n) / (c, n)), '
+        'derived-type shaped locals; profile fortran (3-4 of 9 transformation variants per case), c '
         '(FortranCTransformation) or py (FortranPythonTransformation, invert on/off). idx%4==3: one hostile statement. '
         'Non-trivial = the variant changed the kernel text and original and transformed program ran clean with equal '
         'output on all input sets; distinct = hash of kernel text + variant list.')
@@ -67,7 +68,7 @@ MECH = {
     'neg_stride_py': 'shift_to_zero:negative-stride-stop',
 }
 
-FVARIANTS = ['rvn', 'rvn-opts', 'rvd', 'explicit', 'remove', 'nri', 'nasa', 'pipe']
+FVARIANTS = ['rvn', 'rvn-opts', 'rvd', 'rvd-rvn', 'explicit', 'remove', 'nri', 'nasa', 'pipe']
 
 
 def case_flags(rng, idx):
@@ -129,6 +130,11 @@ def apply_fortran_variant(variant, src, vopts):
     elif variant == 'rvd':
         dim = Dimension(name='horizontal', index='jl', lower='ks', upper='ke', size='n')
         ai.resolve_vector_dimension(routine, dim, **vopts)
+    elif variant == 'rvd-rvn':
+        # only the horizontal ranges first (other ranges stay), then everything that is left
+        dim = Dimension(name='horizontal', index='jl', lower='ks', upper='ke', size='n')
+        ai.resolve_vector_dimension(routine, dim, **vopts)
+        ai.resolve_vector_notation(routine)
     elif variant == 'explicit':
         ai.add_explicit_array_dimensions(routine)
         if vopts.get('then_remove'):
@@ -153,7 +159,7 @@ def variant_opts(variant, rng):
         o = {'resolve_implicit_rhs_ranges': rng.random() < 0.5, 'insert_comments': rng.random() < 0.5,
              'substitute_derived_type_bounds': rng.random() < 0.6}
         return o
-    if variant == 'rvd':
+    if variant in ('rvd', 'rvd-rvn'):
         return {'derive_qualified_ranges': rng.random() < 0.5, 'resolve_implicit_rhs_ranges': rng.random() < 0.7}
     if variant in ('explicit', 'remove'):
         return {'then_remove': rng.random() < 0.5, 'calls_only': rng.random() < 0.5}
@@ -443,6 +449,9 @@ def plan_case(idx, rng, tier):
         need = {'strided_shifted': 'nasa', 'colon_shifted': 'nasa', 'section_call_arg': 'pipe'}.get(hostile)
         if need and need not in variants:
             variants[-1] = need
+        elif 'vecdim-late' in gen.features and not {'rvd', 'rvd-rvn'} & set(variants) and rng.random() < 0.6:
+            # statements with an unresolved range ahead of the horizontal one are what the rvd variants are about
+            variants[-1] = rng.choice(['rvd', 'rvd-rvn'])
     elif profile == 'c':
         variants = ['cpipe']
     else:
